@@ -161,3 +161,24 @@ Fixpoint run_pops (s : chacha) (ops : list pop) : bool :=
 
 Definition run_c15 (c : c15case) : bool := run_pops (mk_state (p_key c) (p_d c)) (p_ops c).
 Definition explain_c15 (c : c15case) : list N := [dkey (cd (mk_state (p_key c) (p_d c)))].
+
+(** what the model computes for every operation of a C15 case (for replay files):
+    set -> 1000 + param (2000 if the model panics); get -> the value; refill -> the block as a
+    little-endian number; compare -> 10*stream32_eq + stream64_eq *)
+Fixpoint explain_pops (s : chacha) (ops : list pop) : list N :=
+  match ops with
+  | [] => []
+  | PSet p v :: r => match set_stream_param s p v with
+                     | Some s' => (1000 + p) :: explain_pops s' r
+                     | None => [2000]
+                     end
+  | PGet p _ :: r => match get_stream_param s p with
+                     | Some v => v :: explain_pops s r
+                     | None => [2000]
+                     end
+  | PRefill dr _ :: r => let '(o, s') := refill s (N.to_nat dr) in le_join o :: explain_pops s' r
+  | PEq k2 d2 _ _ :: r =>
+      let s2 := mk_state k2 d2 in
+      ((if stream32_eq s s2 then 10 else 0) + (if stream64_eq s s2 then 1 else 0)) :: explain_pops s r
+  end.
+Definition explain_c15_ops (c : c15case) : list N := explain_pops (mk_state (p_key c) (p_d c)) (p_ops c).
